@@ -363,6 +363,73 @@ def chain_case(ty, shapes, cfg):
     cid = 'C09/chain/%s/%s/len%d/%s' % (ty.name, '_'.join('%dx%d' % sh for sh in shapes), len(shapes), cfg.tag())
     return multilinear_cases(Case(cid, 'C09', body, bufs + [d1, d2], ens, 'SYM', cfg))
 
+def chain_assign_case(ty, shapes, op, cfg):
+    """D op= A % B % C (op in += -=) with D == 0 on entry (all destination elements constrained to zero): the result must be
+    +/- the mathematical product.  Multilinear in A,B,C (TAGS + BASIS); covers both association branches of the chain
+    overloads of assign_add / assign_sub (rows(A) > cols(C) and the converse)."""
+    T = ty.cpp
+    names = 'abce'[:len(shapes)]
+    bufs = [Buf(nm, ty, prod(sh), 'in', atoms=('T', i)) for i, (nm, sh) in enumerate(zip(names, shapes))]
+    M, Nn = shapes[0][0], shapes[-1][1]
+    d = Buf('d', ty, M * Nn, 'inout')
+    L = [town(ty, sh, nm) for nm, sh in zip(names, shapes)]
+    L.append('Tensor<%s,%d,%d> D(d);' % (T, M, Nn))
+    L.append('D %s %s;' % ({'add': '+=', 'sub': '-='}[op], ' % '.join(nm.upper() for nm in names)))
+    L.append(copy_out('D', 'd', M * Nn))
+    body = '\n'.join('    ' + l for l in L)
+    inner = [sh[1] for sh in shapes[:-1]]
+    ens = []
+    for i in range(M):
+        for l in range(Nn):
+            terms = []
+            for mid in itertools.product(*[range(x) for x in inner]):
+                idx = (i,) + mid + (l,)
+                t = None
+                for b, sh, q in zip(bufs, shapes, range(len(shapes))):
+                    e = E.inp(b, idx[q] * sh[1] + idx[q + 1])
+                    t = e if t is None else t * e
+                terms.append(t)
+            tot = E.total(terms, ty)
+            ens.append((d, i * Nn + l, tot if op == 'add' else -tot))
+    cid = 'C09/chain-assign/%s/%s/%s/%s' % (ty.name, op, '_'.join('%dx%d' % sh for sh in shapes), cfg.tag())
+    return multilinear_cases(Case(cid, 'C09', body, bufs + [d], ens, 'SYM', cfg, zero_in={'d': set(range(M * Nn))}))
+
+def gemm_case(ty, M, K, Nn, op, cfg):
+    """D += A % B / D -= A % B (the in-place GEMM path): D_after == D_before +/- sum_k a_ik b_kj.  ATOMS with the old
+    destination as linear (product-class) symbols: proof for all values, float double and int; narrow outputs (few
+    columns) make the library pick a SIMD type narrower than the native one."""
+    a = Buf('a', ty, M * K, 'in', atoms='A'); b = Buf('b', ty, K * Nn, 'in', atoms='B'); d = Buf('d', ty, M * Nn, 'inout', atoms='LIN')
+    body = ('    %s %s Tensor<%s,%d,%d> D(d);\n    D %s A %% B;\n    %s'
+            % (town(ty, (M, K), 'a'), town(ty, (K, Nn), 'b'), ty.cpp, M, Nn, {'add': '+=', 'sub': '-='}[op], copy_out('D', 'd', M * Nn)))
+    ens = []
+    for i in range(M):
+        for j in range(Nn):
+            tot = E.total([E.inp(a, i * K + k) * E.inp(b, k * Nn + j) for k in range(K)], ty)
+            old = E.inp(d, i * Nn + j)
+            ens.append((d, i * Nn + j, old + tot if op == 'add' else old - tot))
+    return Case('C09/gemm-atoms/%s/%s/%dx%dx%d/%s' % (ty.name, op, M, K, Nn, cfg.tag()), 'C09', body, [a, b, d], ens, 'ATOMS', cfg)
+
+def trans_self_case(ty, n, m, form, cfg):
+    """the destination is itself the operand of the lazy transpose: D += trans(D), D -= trans(D), D += trans(D) + E, D = trans(D)
+    (square D).  int: SYM; float/double: UF on P0."""
+    d = Buf('d', ty, n * n, 'inout'); e = Buf('e', ty, n * n, 'in')
+    stmt = {'add': 'D += trans(D);', 'sub': 'D -= trans(D);', 'addE': 'D += trans(D) + E;', 'Eadd': 'D += E + trans(D);', 'set': 'D = trans(D);'}[form]
+    body = '    Tensor<%s,%d,%d> D(d); %s\n    %s\n    %s' % (ty.cpp, n, n, town(ty, (n, n), 'e'), stmt, copy_out('D', 'd', n * n))
+    ens = []
+    for i in range(n):
+        for j in range(n):
+            x = E.inp(d, i * n + j); t = E.inp(d, j * n + i); ee = E.inp(e, i * n + j)
+            k = i * n + j
+            if form == 'add': ens.append((d, k, x + t))
+            elif form == 'sub': ens.append((d, k, x - t))
+            elif form == 'set': ens.append((d, k, t))
+            elif form == 'addE':   # staged: (D + trans(D)) + E, or D + (trans(D) + E): both accepted
+                ens.append(('bool', 'd[%d] == d + d^T + e' % k, E.post(d, k).same((x + t) + ee).bor(E.post(d, k).same(x + (t + ee)))))
+            else:
+                ens.append(('bool', 'd[%d] == d + e + d^T' % k, E.post(d, k).same((x + ee) + t).bor(E.post(d, k).same(x + (ee + t)))))
+    mode = 'SYM' if ty.kind == 'int' else 'UF'
+    return Case('C09/alias-trans-self/%s/%s/%dx%d/%s' % (ty.name, form, n, n, cfg.tag()), 'C09', body, [d, e], ens, mode, cfg)
+
 # ---- statement generators -----------------------------------------------------------------------------------------
 def shapes_for(kind, thorough):
     """operand shape sets: (A, B) with A%B conformable, result D/C shape = (A rows, B cols)."""
@@ -581,6 +648,24 @@ def cases(tier, seed):
     for i, ch in enumerate(CHAINS + (CHAINS_T if thorough else [])):
         for j, isa in enumerate(il if thorough else [il[i % len(il)], il[(i + 1) % len(il)]]):
             out += chain_case([INT, FLT, DBL][(i + j) % 3], ch, Cfg(isa, 'c++14'))
+    # ---- D op= chain with D == 0 (both association branches), the in-place GEMM path, and the transposed destination
+    for i, ch in enumerate([[(5, 4), (4, 3), (3, 2)], [(2, 3), (3, 4), (4, 5)], [(3, 2), (2, 3), (3, 3)]] + ([[(4, 2), (2, 5), (5, 2)], [(2, 2), (2, 2), (2, 2)]] if thorough else [])):
+        for op in ('add', 'sub'):
+            for j, isa in enumerate(il if thorough else [il[(i + j_) % len(il)] for j_ in range(1)]):
+                out += chain_assign_case([DBL, FLT, INT][(i + j + (op == 'sub')) % 3], ch, op, Cfg(isa, 'c++14'))
+    for isa in il:
+        for ty in (FLT, DBL, INT):
+            V = vec_elems(isa, ty)
+            shapes = [(max(2, V // 2), 2, max(2, V // 2)), (V, 3, max(2, V // 4)), (3, 2, V + 1), (2, 2, 2)] if not thorough else \
+                     [(max(2, V // 2), 2, max(2, V // 2)), (V, 3, max(2, V // 4)), (V, 2, 3), (V, 2, 4), (3, 2, V + 1), (2, 2, 2), (4, 3, 2 * V), (5, 4, 3)]
+            for k, (M, K_, Nn) in enumerate(sorted(set(shapes))):
+                if M * K_ * Nn > 300: continue
+                for op in (('add', 'sub') if thorough else (('add', 'sub')[k % 2],)):
+                    out.append(gemm_case(ty, M, K_, Nn, op, Cfg(isa, 'c++14')))
+        for k, form in enumerate(('add', 'sub', 'addE', 'Eadd', 'set')):
+            ty = [INT, DBL, FLT][k % 3] if not thorough else None
+            for t in ([ty] if ty else [INT, DBL, FLT]):
+                out.append(trans_self_case(t, 3 if k % 2 else 2, 0, form, Cfg(isa, 'c++14', pipe='P1' if t is INT else 'P0')))
     # ---- bounded integer families (B01)
     IS = int_statements(thorough)
     il = isas(tier)
